@@ -1,10 +1,11 @@
 use crate::{Rng, Runner};
 
-pub const ACKFREQ_RULE: &str = "case = AckFrequencyState::new, the peer's transport parameters (max_ack_delay 0..16383 ms, min_ack_delay none / <= / around / above 25 ms, always through the real TransportParameters::read), a local AckFrequencyConfig (max_ack_delay none or set), then up to maxops events as Connection issues them: poll_transmit (should_send_ack_frequency(rtt); if true next_sequence_number, candidate_max_ack_delay(rtt), ack_frequency_sent), ACKs (on_acked with matching / other packet numbers), received ACK_FREQUENCY frames (sequence numbers increasing, repeated, stale; request_max_ack_delay around 1 ms and up to 2^62-1; arbitrary thresholds), PTO queries; rtt around 25 ms, around the peer's min_ack_delay and boundary-biased; pending/desired pairs placed at the 0.8/1.2 ratio edges of the f32 test. 1 case in 8 is the MALFORMED stream (parameters that read() must reject, frames before parameters, huge values). non-trivial = an accepted, a stale and a rejected ACK_FREQUENCY frame or a float-path should_send evaluation plus a matching on_acked";
+pub const ACKFREQ_RULE: &str = "case = AckFrequencyState::new, the peer's transport parameters (max_ack_delay 0..16383 ms, min_ack_delay none / <= / around / above 25 ms (above max(rtt, 25 ms) = the zone of the fixed defect F1), always through the real TransportParameters::read), a local AckFrequencyConfig (max_ack_delay none or set), then up to maxops events as Connection issues them: poll_transmit (should_send_ack_frequency(rtt); if true next_sequence_number, candidate_max_ack_delay(rtt), ack_frequency_sent), ACKs (on_acked with matching / other packet numbers), received ACK_FREQUENCY frames (sequence numbers increasing, repeated, stale; request_max_ack_delay around 1 ms and up to 2^62-1; arbitrary thresholds), PTO queries; rtt around 25 ms, around the peer's min_ack_delay and boundary-biased; pending/desired pairs placed at the 0.8/1.2 ratio edges of the f32 test. 1 case in 8 is the MALFORMED stream (parameters that read() must reject, frames before parameters, huge values). non-trivial = an accepted, a stale and a rejected ACK_FREQUENCY frame or a float-path should_send evaluation plus a matching on_acked";
 
 const MS: u64 = 1_000_000;
 
-/// F1 is a known finding: it is reported once per campaign (the first case that reaches it), with its case id
+/// F1 (clamp(min, max) with the peer's min_ack_delay above max(rtt, 25 ms)) is FIXED in quinn: the key is kept so that a
+/// regression is reported as a violation; once per campaign (the first case that reaches it), with its case id
 fn report_f1(r: &mut Runner, what: &str) {
     if !r.oracle_failures.iter().any(|f| f.contains("key=F1-ack-frequency-clamp-panics")) {
         r.oracle_fail(&format!("key=F1-ack-frequency-clamp-panics {what}"));
@@ -88,13 +89,15 @@ pub fn ackfreq(rng: &mut Rng, r: &mut Runner, maxops: usize) {
             6 => rng.range(MS, 100 * MS),
             _ => rng.below(40 * MS),
         };
-        let clamp_panics = min_ns > rtt.max(25 * MS);
+        // the old F1 zone: the peer's min_ack_delay exceeds max(rtt, 25 ms); must not panic any more
+        let f1_zone = min_ns > rtt.max(25 * MS);
+        let upper = rtt.max(25 * MS).max(min_ns);
         let c = rng.below(100);
         if c < 30 {
             // poll_transmit
             let resp = r.op(&format!("ackfreq should {rtt}"));
             if resp == "panic" {
-                if clamp_panics && next_seq != 0 {
+                if f1_zone && next_seq != 0 {
                     report_f1(r, &format!("should_send_ack_frequency: peer min_ack_delay {}us > max(rtt {rtt}ns, 25ms)", peer_min.unwrap_or(0)));
                 } else {
                     r.oracle_fail(&format!("key=ackfreq-panic-other should_send_ack_frequency rtt={rtt} min_ack_delay={peer_min:?} next_seq={next_seq}"));
@@ -113,7 +116,7 @@ pub fn ackfreq(rng: &mut Rng, r: &mut Runner, maxops: usize) {
                 next_seq += 1;
                 let resp = r.op(&format!("ackfreq cand {rtt}"));
                 if resp == "panic" {
-                    if clamp_panics {
+                    if f1_zone {
                         report_f1(r, &format!("candidate_max_ack_delay: peer min_ack_delay {}us > max(rtt {rtt}ns, 25ms)", peer_min.unwrap_or(0)));
                     } else {
                         r.oracle_fail(&format!("key=ackfreq-panic-other candidate_max_ack_delay rtt={rtt} min_ack_delay={peer_min:?}"));
@@ -121,9 +124,9 @@ pub fn ackfreq(rng: &mut Rng, r: &mut Runner, maxops: usize) {
                     return;
                 }
                 let d: u64 = resp.strip_prefix("ok ").and_then(|x| x.parse().ok()).unwrap_or(0);
-                // oracle: the requested delay lies within [peer min_ack_delay, max(rtt, 25ms)]
-                if d < min_ns || d > rtt.max(25 * MS) {
-                    r.oracle_fail(&format!("key=ackfreq-candidate-range {d} not in [{min_ns}, {}]", rtt.max(25 * MS)));
+                // oracle: the requested delay lies within [peer min_ack_delay, max(rtt, 25ms, peer min_ack_delay)]
+                if d < min_ns || d > upper {
+                    r.oracle_fail(&format!("key=ackfreq-candidate-range {d} not in [{min_ns}, {upper}]"));
                 }
                 pn += 1 + rng.below(3);
                 r.op(&format!("ackfreq sent {pn} {d}"));
@@ -131,8 +134,8 @@ pub fn ackfreq(rng: &mut Rng, r: &mut Runner, maxops: usize) {
             }
         } else if c < 40 {
             // place pending/desired at the edges of the f32 ratio test
-            let desired = cfg.unwrap_or(peer_mad).clamp(min_ns.min(rtt.max(25 * MS)), rtt.max(25 * MS));
-            if desired > 100 && !clamp_panics {
+            let desired = cfg.unwrap_or(peer_mad).clamp(min_ns, upper);
+            if desired > 100 {
                 let base = if rng.chance(1, 2) { desired / 6 * 5 } else { desired / 4 * 5 };
                 let p = (base + rng.below(7)).saturating_sub(3);
                 pn += 1;
@@ -144,7 +147,11 @@ pub fn ackfreq(rng: &mut Rng, r: &mut Runner, maxops: usize) {
                 }
                 let resp = r.op(&format!("ackfreq should {rtt}"));
                 if resp == "panic" {
-                    r.oracle_fail(&format!("key=ackfreq-panic-other should_send_ack_frequency rtt={rtt} min_ack_delay={peer_min:?}"));
+                    if f1_zone {
+                        report_f1(r, &format!("should_send_ack_frequency: peer min_ack_delay {}us > max(rtt {rtt}ns, 25ms)", peer_min.unwrap_or(0)));
+                    } else {
+                        r.oracle_fail(&format!("key=ackfreq-panic-other should_send_ack_frequency rtt={rtt} min_ack_delay={peer_min:?}"));
+                    }
                     return;
                 }
                 fpath = true;
